@@ -486,6 +486,25 @@ func (ex *Exec) callContractVars(c *Contract, params []*types.Var, sig *types.Si
 		g := ex.evalCallClause(c, cl, env, st, old)
 		ex.assume(imp(r, g))
 	}
+	if ex.pure == 0 {
+		// history variables: number of contract calls of c and the results of the most recent one
+		nk := "X|ncalls." + c.Name
+		ex.registerKey(nk, sInt)
+		prevN := ex.heapGet(st, nk, sInt)
+		st.H[nk] = ex.name("ncalls", ite(r, app("+", prevN, "1"), prevN), sInt)
+		for i, v := range vs {
+			ex.lastResTypes[fmt.Sprintf("%s.%d", c.Name, i)] = res.At(i).Type()
+			for j, l := range leaves(res.At(i).Type()) {
+				if j >= len(v.L) {
+					break
+				}
+				rk := fmt.Sprintf("X|lastres.%s.%d.%d", c.Name, i, j)
+				ex.registerKey(rk, l.Sort)
+				prev := ex.heapGet(st, rk, l.Sort)
+				st.H[rk] = ex.name("lres", ite(r, v.L[j], prev), l.Sort)
+			}
+		}
+	}
 	if res.Len() == 0 {
 		return Val{T: res}
 	}
@@ -552,6 +571,18 @@ func (ex *Exec) resolveModifies(c *Contract, item string, env map[string]Val, st
 	if strings.HasPrefix(item, "global ") {
 		name := strings.TrimSpace(strings.TrimPrefix(item, "global "))
 		g, ok := c.Pkg.Members[name].(*ssa.Global)
+		if !ok {
+			// pkg.Name: a global of an imported package (by package name)
+			if i := strings.Index(name, "."); i > 0 {
+				for _, sp := range ex.w.prog.AllPackages() {
+					if sp.Pkg.Name() == name[:i] && strings.HasPrefix(sp.Pkg.Path(), ex.w.module) {
+						if g2, ok2 := sp.Members[name[i+1:]].(*ssa.Global); ok2 {
+							g, ok = g2, true
+						}
+					}
+				}
+			}
+		}
 		if !ok {
 			panic(unsupported("modifies global: unknown " + name))
 		}
